@@ -141,6 +141,23 @@ func init() {
 		}
 		return math.Sqrt(a[0].(float64))
 	})
+	l("math.IsNaN", func(fr *frame, a []value) value {
+		if t, ok := a[0].(*Term); ok {
+			return math.IsNaN(math.Float64frombits(I.x.concretize(t, "IsNaN")))
+		}
+		return math.IsNaN(a[0].(float64))
+	})
+	l("math.IsInf", func(fr *frame, a []value) value {
+		f, ok := a[0].(float64)
+		if t, isTerm := a[0].(*Term); isTerm {
+			f, ok = math.Float64frombits(I.x.concretize(t, "IsInf")), true
+		}
+		sign, ok2 := a[1].(int)
+		if !ok || !ok2 {
+			panic(outOfReach{"math.IsInf of a symbolic value"})
+		}
+		return math.IsInf(f, sign)
+	})
 	l("math.Abs", func(fr *frame, a []value) value {
 		if t, ok := a[0].(*Term); ok {
 			return fromTerm(mkFUn(OpFAbs, t), types.Float64)
